@@ -180,7 +180,7 @@ func (fr *Frame) applyContract(v ssa.Value, ct *Contract, name string, c *ssa.Ca
 	vc := fr.vc
 	g := vc.g
 	pre := st.Clone()
-	env := &Env{g: g, vars: map[string]*Term{}, st: pre, where: ct.Source}
+	env := &Env{g: g, vars: map[string]*Term{}, st: pre, where: ct.Source, ctx: []string{name}}
 	// parameter names: from the contract header, else from the callee's SSA/signature
 	pnames := ct.Params
 	if len(pnames) == 0 {
@@ -259,6 +259,7 @@ func (fr *Frame) applyContract(v ssa.Value, ct *Contract, name string, c *ssa.Ca
 				if pn, ln, ok := strings.Cut(recvName, "="); ok {
 					idx = -1
 					if fn := c.StaticCallee(); fn != nil {
+						pn = g.currentName([]string{shortFnName(fn)}, pn)
 						for k, p := range fn.Params {
 							if p.Name() == pn {
 								idx = k
@@ -267,7 +268,7 @@ func (fr *Frame) applyContract(v ssa.Value, ct *Contract, name string, c *ssa.Ca
 					}
 					recvName = ln
 				}
-				if idx < 0 || idx >= len(c.Args) || !fr.valueNamed(c.Args[idx], recvName) {
+				if idx < 0 || idx >= len(c.Args) || !fr.valueNamed(c.Args[idx], g.currentName(fr.env0.ctx, recvName)) {
 					continue
 				}
 			}
@@ -275,6 +276,7 @@ func (fr *Frame) applyContract(v ssa.Value, ct *Contract, name string, c *ssa.Ca
 			e2.st = st
 			e2.old = fr.env0
 			e2.where = ac.Line
+			e2.ctx = append(append([]string{}, fr.env0.ctx...), name)
 			for k, val := range env.vars {
 				if _, clash := e2.vars[k]; !clash {
 					e2.vars[k] = val
@@ -303,13 +305,22 @@ func (fr *Frame) applyContract(v ssa.Value, ct *Contract, name string, c *ssa.Ca
 	}
 	// 2. exit conditions of the caller at terminal calls
 	if ct.Terminal {
-		if fr.top {
+		// the exit conditions belong to the function under contract: inside an inlined helper they are stated over the
+		// top frame's locals as of the call that (transitively) led here, and over the current state
+		tf, tin := fr, in
+		for !tf.top && tf.parent != nil {
+			tf, tin = tf.parent, tf.site
+		}
+		if tf.top {
+			if !fr.top {
+				ord = fr.oblPref + name
+			}
 			for i, er := range vc.ct.ExitReq {
-				e2 := fr.env0.child()
+				e2 := tf.env0.child()
 				e2.st = st
-				e2.old = fr.env0
+				e2.old = tf.env0
 				e2.where = er.Line
-				e2.resolve = func(nm string) (*Term, bool) { return fr.resolveAt(nm, in, st) }
+				e2.resolve = func(nm string) (*Term, bool) { return tf.resolveAt(nm, tin, st) }
 				for k, val := range env.vars { // callee parameters (e.g. code)
 					if _, clash := e2.vars[k]; !clash {
 						e2.vars[k] = val
@@ -460,6 +471,7 @@ func (fr *Frame) inline(v ssa.Value, fn *ssa.Function, c *ssa.CallCommon, args [
 	g.fresh++
 	sub := vc.newFrame(fn, fmt.Sprintf("%si%d_", fr.prefix, g.fresh), false)
 	sub.oblPref = fmt.Sprintf("%sinl:%s/", fr.oblPref, strings.TrimSuffix(fr.ordOr(in, shortFnName(fn)), ""))
+	sub.parent, sub.site = fr, in
 	sub.env0 = &Env{g: g, vars: map[string]*Term{}, st: st}
 	sub.env0.old = sub.env0
 	i := 0
